@@ -205,6 +205,7 @@ func RunSim(t *testing.T, seed uint64, pol sim.Policy, maxSteps int, horizon tim
 			res.Externals = k.Externals
 			if res.Verdict != sim.AllDone {
 				res.Unfinished = k.Unfinished()
+				hangNote.Store(fmt.Sprintf("the kernel had already ended the run with verdict %s (unfinished tasks %v) and was waiting for the tasks to unwind", res.Verdict, res.Unfinished))
 			}
 			if freeze != nil {
 				freeze()
